@@ -94,6 +94,9 @@ type Exec struct {
 	fnsHit   map[*ssa.Function]bool
 	syncObjs map[*Object]*syncState
 	guards   []guardDecl
+	raceObjs []*Object
+	raceStep int64
+	raceThread int
 	lockHeld map[*Object]int // mutex object -> owning thread id (for discipline checks)
 	allocLog []*Term
 
@@ -126,6 +129,7 @@ type Exec struct {
 	replayModel       Model // non-nil: re-executing a counterexample (every draw pinned to its model value)
 	specMode          bool // speculative evaluation of a pure branch side (if-conversion)
 	noIfConv          bool
+	fpAbstract        bool // fp=abstract: floating-point results on symbolic operands are arbitrary values
 	schedAll          bool
 	pinQuiet          bool
 	mapFixed          bool
@@ -202,6 +206,8 @@ func (ex *Exec) resetPath(prefix []Decision) {
 	ex.fresh = 0
 	ex.syncObjs = map[*Object]*syncState{}
 	ex.guards = nil
+	ex.raceObjs = nil
+	ex.raceStep = -1
 	ex.lockHeld = map[*Object]int{}
 	ex.allocLog = nil
 	ex.sol.Reset()
